@@ -1,6 +1,7 @@
 package main
 
 import (
+	"sort"
 	"fmt"
 	"go/token"
 	"go/types"
@@ -25,7 +26,7 @@ func (f *FuncVC) execMapUpdate(fr *frame, st *State, x *ssa.MapUpdate) {
 		if g != "true" {
 			ok := false
 			for _, ml := range f.modSet {
-				if ml.key == "*" {
+				if ml.key == "*" || ml.key == "*maps" {
 					ok = true
 				}
 			}
@@ -274,12 +275,6 @@ func (f *FuncVC) inlineCall(fr *frame, st *State, callee *ssa.Function, args []V
 	return Val{K: KTuple, Elems: outs, Typ: x.Type()}
 }
 
-func (f *FuncVC) havocAll(st *State) {
-	for k := range f.hsort {
-		f.havocHeapKey(st, k)
-	}
-}
-
 // intrinsic handles a few standard-library functions by their mathematical meaning.
 func (f *FuncVC) intrinsic(st *State, full string, args []Val, rt types.Type) (Val, bool) {
 	switch full {
@@ -435,6 +430,11 @@ func (f *FuncVC) appendStructs(fr *frame, st *State, s, t Val, res, inplace, rne
 	// the fresh-array case copies the old elements: havoc fields, then constrain
 	sty := et.Underlying().(*types.Struct)
 	oldLen := "(s.len " + s.T + ")"
+	// res is a macro for an ite term, which may not occur in patterns: name its array and offset
+	resT := res
+	ra := f.freshConst("apparr", "Int")
+	ro := f.freshConst("appoff", "Int")
+	f.assume("(and (= " + ra + " (s.arr " + resT + ")) (= " + ro + " (s.off " + resT + ")))")
 	for i := 0; i < sty.NumFields(); i++ {
 		ft := sty.Field(i).Type()
 		k, w := kindOfType(ft)
@@ -447,12 +447,12 @@ func (f *FuncVC) appendStructs(fr *frame, st *State, s, t Val, res, inplace, rne
 		old := f.heapGet(st, key, srt)
 		n := f.freshConst(key, srt)
 		st.heap[key] = n
-		newElt := "(eltref (s.arr " + res + ") (+ (s.off " + res + ") " + oldLen + "))"
+		newElt := "(eltref " + ra + " (+ " + ro + " " + oldLen + "))"
 		f.assume("(= (select " + n + " " + newElt + ") " + f.termAs(v.Elems[i], k, w) + ")")
 		// old elements copied when reallocated
-		f.assume("(forall ((j Int)) (! (=> (and (<= 0 j) (< j " + oldLen + ")) (= (select " + n + " (eltref (s.arr " + res + ") (+ (s.off " + res + ") j))) (select " + old + " (eltref (s.arr " + s.T + ") (+ (s.off " + s.T + ") j))))) :pattern ((select " + n + " (eltref (s.arr " + res + ") (+ (s.off " + res + ") j))))))")
+		f.assume("(forall ((j Int)) (! (=> (and (<= 0 j) (< j " + oldLen + ")) (= (select " + n + " (eltref " + ra + " (+ " + ro + " j))) (select " + old + " (eltref (s.arr " + s.T + ") (+ (s.off " + s.T + ") j))))) :pattern ((select " + n + " (eltref " + ra + " (+ " + ro + " j))))))")
 		// everything else unchanged
-		f.assume("(forall ((r Int)) (! (=> (not (and (< r 0) (= (eltref.arr r) (s.arr " + res + ")) (or (not " + inplace + ") (= (eltref.idx r) (+ (s.off " + res + ") " + oldLen + "))))) (= (select " + n + " r) (select " + old + " r))) :pattern ((select " + n + " r))))")
+		f.assume("(forall ((r Int)) (! (=> (not (and (< r 0) (= (eltref.arr r) " + ra + ") (or (not " + inplace + ") (= (eltref.idx r) (+ " + ro + " " + oldLen + "))))) (= (select " + n + " r) (select " + old + " r))) :pattern ((select " + n + " r))))")
 	}
 }
 
@@ -607,6 +607,10 @@ func (f *FuncVC) applyContract(fr *frame, st *State, c *Contract, callee *ssa.Fu
 			f.havocMod(st, l)
 		}
 	}
+	if c.Havoc != "" {
+		f.assumptions["call of "+c.Key+" abstracted by total havoc (nothing assumed about its effects; its own panics/termination are not covered here): "+c.Havoc] = true
+		f.havocAll(st)
+	}
 	if c.Allocates || c.mentionsFresh() {
 		f.havocHeapKey(st, "alloc")
 	}
@@ -655,6 +659,14 @@ func (f *FuncVC) writableMod(st *State, m modLoc) string {
 	if m.key == "alloc" {
 		return "true"
 	}
+	if m.key == "*maps" {
+		for _, mine := range f.modSet {
+			if mine.key == "*maps" {
+				return "true"
+			}
+		}
+		return "false"
+	}
 	alts := []string{f.isFreshRef(m.ref)}
 	if alts[0] == "true" {
 		return "true"
@@ -691,4 +703,18 @@ func (c *Contract) mentionsFresh() bool {
 		}
 	}
 	return false
+}
+
+// havocAll forgets every heap component (allocation only grows) and starts a new epoch for components not seen yet.
+func (f *FuncVC) havocAll(st *State) {
+	var keys []string
+	for k := range f.hsort {
+		keys = append(keys, k)
+	}
+	sort.Strings(keys)
+	for _, k := range keys {
+		f.havocHeapKey(st, k)
+	}
+	f.epochCtr++
+	st.epoch = f.epochCtr
 }
